@@ -171,6 +171,13 @@ def LN.ent (n : LN) : Ent := ⟨n.dye, n.terminal, n.data⟩
 def findE (f : Nat) (lh : LHeap) (id : Nat) (s : Key) : Res (Option Ent) :=
   mapRes (Option.map LN.ent) (findL f lh id s)
 
+/-- fixed-length, injective key encoding (`Address.Hex()`) -/
+structure Enc (L : Nat) where
+  enc : Nat → Key
+  inj : ∀ a b, enc a = enc b → a = b
+  len : ∀ k, (enc k).length = L
+  pos : 0 < L
+
 def putTopL (lh : LHeap) (root : Nat) (key : Key) (data : Option Data) (dye : Nat) : Option (LHeap × Nat) :=
   match putL (key.length + 1) lh root key data dye with
   | none => none
